@@ -54,12 +54,10 @@ class InstantiatedGlobalFunction(parser.GlobalFunction):
     def to_cpp(self):
         """Generate the C++ code for wrapping."""
         if self.original.template:
-            instantiated_names = [
-                "::".join(inst.namespaces + [inst.instantiated_name()])
-                for inst in self.instantiations
-            ]
+            # to_cpp will handle all the namespacing and templating
+            instantiation_list = [x.to_cpp() for x in self.instantiations]
             ret = "{}<{}>".format(self.original.name,
-                                  ",".join(instantiated_names))
+                                  ",".join(instantiation_list))
         else:
             ret = self.original.name
         return ret
